@@ -168,6 +168,8 @@ def compare_one(harness, hprop, exe, files, work, tag, thorough=False, plain_exe
         for k, perturb in enumerate(("85", "170")):
             e = dict(os.environ)
             e["MALLOC_PERTURB_"] = perturb
+            # glibc only perturbs blocks that bypass the per-thread cache: without this most recycled blocks keep their old bytes
+            e["GLIBC_TUNABLES"] = "glibc.malloc.tcache_count=0"
             tD = os.path.join(work, tag + "-D" + perturb)
             rcD, outD = batch(plain_exe, hprop, files, tD, work, e, reverse=bool(k))
             if rcD != 0:
